@@ -119,12 +119,50 @@ fn wrap_main(body: &str) -> String {
     format!("{HEAD}fn main() {{\n{body}\n}}\n")
 }
 
+/// a second, well-formed type built in the same program before the defective one (the defect must
+/// be rejected wherever it stands)
+fn with_neighbour(body: &str, portable: bool, decor: u8) -> String {
+    if decor / 32 % 2 == 0 {
+        return body.to_string();
+    }
+    let f = form(portable);
+    let fm = field_method(portable);
+    format!(
+        "    let _ok: Type<{f}> = {}.path({}).composite(Fields::named().{fm}(|f| {}).{fm}(|f| {}));\n{body}",
+        builder(portable),
+        path(portable),
+        good_field(portable, true, decor),
+        good_field(portable, true, decor / 3)
+    )
+}
+
 fn derive_prog(item: &str, ty: &str) -> String {
     format!("{HEAD}pub struct NoInfo;\n{item}\nfn main() {{ assert_type_info::<{ty}>(); }}\n")
 }
 
+/// the same item in another syntactic shape (named struct -> tuple struct / enum), so that the
+/// defect is met in every kind of derive input
+fn reshape(item: &str, decor: u8) -> String {
+    match decor / 16 % 4 {
+        1 => item.replace("pub struct X<T> { a: T }", "pub struct X<T>(T);").replace("pub struct X { a: u8 }", "pub struct X(u8);"),
+        2 => item.replace("pub struct X<T> { a: T }", "pub enum X<T> { A(T), B { b: u8 }, C }").replace("pub struct X { a: u8 }", "pub enum X { A(u8), B }"),
+        3 => item.replace("pub struct X<T> { a: T }", "pub struct X<T> { a: T, b: Vec<T>, #[codec(skip)] c: u8 }").replace("pub struct X { a: u8 }", "pub struct X { a: u8, /// field doc\n b: u16 }"),
+        _ => item.to_string(),
+    }
+}
+
 impl NCase {
     pub fn programs(&self) -> Programs {
+        let mut pr = self.programs_inner();
+        if pr.builder && self.decor / 32 % 2 == 1 {
+            let nb = with_neighbour("", self.portable, self.decor);
+            pr.negative = pr.negative.replacen("fn main() {\n", &format!("fn main() {{\n{nb}"), 1);
+            pr.twin = pr.twin.replacen("fn main() {\n", &format!("fn main() {{\n{nb}"), 1);
+        }
+        pr
+    }
+
+    fn programs_inner(&self) -> Programs {
         let p = self.portable;
         let d = self.decor;
         let v = self.variation;
@@ -267,8 +305,8 @@ impl NCase {
                 let neg_attr = format!("#[scale_info({first}{second})]").replace(", )", ")");
                 let twin_attr = if other.is_empty() { String::new() } else { format!("#[scale_info({})]", other.trim_end_matches(", ")) };
                 Programs {
-                    negative: derive_prog(&format!("#[derive(TypeInfo)]\n{neg_attr}\npub struct X<T> {{ a: T }}"), "X<u8>"),
-                    twin: derive_prog(&format!("#[derive(TypeInfo)]\n{twin_attr}\npub struct X<T> {{ a: T }}"), "X<u8>"),
+                    negative: derive_prog(&reshape(&format!("#[derive(TypeInfo)]\n{neg_attr}\npub struct X<T> {{ a: T }}"), d), "X<u8>"),
+                    twin: derive_prog(&reshape(&format!("#[derive(TypeInfo)]\n{twin_attr}\npub struct X<T> {{ a: T }}"), d), "X<u8>"),
                     builder: false,
                     what: "unknown scale_info attribute",
                     sig: "derive-accepts",
@@ -295,8 +333,8 @@ impl NCase {
                 };
                 let body = if v % 4 == 1 { "pub struct X<T> { a: core::marker::PhantomData<T> }" } else { "pub struct X<T> { a: T }" };
                 Programs {
-                    negative: derive_prog(&format!("#[derive(TypeInfo)]\n{neg}\n{body}"), "X<u8>"),
-                    twin: derive_prog(&format!("#[derive(TypeInfo)]\n{twin}\n{body}"), "X<u8>"),
+                    negative: derive_prog(&reshape(&format!("#[derive(TypeInfo)]\n{neg}\n{body}"), d), "X<u8>"),
+                    twin: derive_prog(&reshape(&format!("#[derive(TypeInfo)]\n{twin}\n{body}"), d), "X<u8>"),
                     builder: false,
                     what: "repeated scale_info attribute",
                     sig: "derive-accepts",
@@ -307,8 +345,8 @@ impl NCase {
                 let bad = ["sometimes", "", "alwayss", "yes", "true", "default ", "neve", "al ways"][(v % 8) as usize];
                 let good = ["always", "never", "default"][(d % 3) as usize];
                 Programs {
-                    negative: derive_prog(&format!("/// doc\n#[derive(TypeInfo)]\n#[scale_info(capture_docs = \"{bad}\")]\npub struct X {{ a: u8 }}"), "X"),
-                    twin: derive_prog(&format!("/// doc\n#[derive(TypeInfo)]\n#[scale_info(capture_docs = \"{good}\")]\npub struct X {{ a: u8 }}"), "X"),
+                    negative: derive_prog(&reshape(&format!("/// doc\n#[derive(TypeInfo)]\n#[scale_info(capture_docs = \"{bad}\")]\npub struct X {{ a: u8 }}"), d), "X"),
+                    twin: derive_prog(&reshape(&format!("/// doc\n#[derive(TypeInfo)]\n#[scale_info(capture_docs = \"{good}\")]\npub struct X {{ a: u8 }}"), d), "X"),
                     builder: false,
                     what: "invalid capture_docs value",
                     sig: "derive-accepts",
